@@ -278,9 +278,9 @@ theorem gitFile_abortsOnAnyCloseFailure : gitFile.abortsOnAnyCloseFailure = true
 
 /-- `close_failure_releases_lock` for the CURRENT program: a with-caller that is done holds no lock,
 finalised or not, whatever failed — unless an unlink was made to fail, or closing the file object
-inside abort() raised (`fcFailed`: the remaining finding
-F-C07-abort-file-close-error-skips-unlink, see
-`persistent_fault_abort_skips_unlink_counterexample`). -/
+inside abort() raised before the unlink (`fcFailed`: finding
+F-C07-abort-file-close-error-skips-unlink, `persistent_fault_abort_skips_unlink_counterexample`;
+since eda3035 that cannot happen any more, see `failed_write_releases_lock_now`). -/
 theorem close_failure_releases_lock_now {s0 s : State} (h0 : Initial s0) (i : Nat)
     {fs pm fin : Bool} {ds : List Bytes} (hi : s0.actors i = withCaller fs pm ds fin)
     (h : Reach gitFile s0 s) (hd : (s.actors i).pc = .done)
@@ -290,8 +290,7 @@ theorem close_failure_releases_lock_now {s0 s : State} (h0 : Initial s0) (i : Na
     hd hrm hfc
 
 /-- … and for any program that in addition has `try: self._file.close() finally: <unlink>` in
-abort() (the proposed repair of that remaining finding) the `fcFailed` proviso disappears: only a
-failing unlink can keep the lock. -/
+abort() (eda3035) the `fcFailed` proviso disappears: only a failing unlink can keep the lock. -/
 theorem abort_close_in_try_releases_lock (P : Program) (hP : P.wellBehaved = true)
     (hA : P.abortsOnAnyCloseFailure = true) (hT : P.abortCloseInTry = true) {s0 s : State}
     (h0 : Initial s0) (i : Nat) {fs pm fin : Bool} {ds : List Bytes}
@@ -299,6 +298,25 @@ theorem abort_close_in_try_releases_lock (P : Program) (hP : P.wellBehaved = tru
     (hd : (s.actors i).pc = .done) (hrm : (s.actors i).rmFailed = false) :
     (s.actors i).owns = false ∧ s.fs.lock ≠ some i :=
   close_failure_releases_lock P hP hA h0 i hi h hd hrm (reach_fcFailed hT h0 h i)
+
+/-- the program as it is now (since eda3035) unlinks in abort() even when closing the file object
+raises -/
+theorem gitFile_abortCloseInTry : gitFile.abortCloseInTry = true := by decide
+
+/-- HEADLINE for "a write that fails or is aborted leaves … the lock released", for the CURRENT
+program (dd7ffc5 + 37a7ef3 + eda3035): in every state reachable under every schedule of any number
+of actors and any sequence of failing calls — a persistent ENOSPC included: flush fails, the file
+object's close inside abort() fails again — a `with GitFile(...)` caller (and the repaired
+`Index.write`, `index_write_now_is_with_caller`) that is done holds no lock and `f.lock` is not
+its file, whether or not its handle was ever finalised.  The only proviso left is an `os.remove`
+that was itself made to fail, about which the code can do nothing. -/
+theorem failed_write_releases_lock_now {s0 s : State} (h0 : Initial s0) (i : Nat)
+    {fs pm fin : Bool} {ds : List Bytes} (hi : s0.actors i = withCaller fs pm ds fin)
+    (h : Reach gitFile s0 s) (hd : (s.actors i).pc = .done)
+    (hrm : (s.actors i).rmFailed = false) :
+    (s.actors i).owns = false ∧ s.fs.lock ≠ some i :=
+  abort_close_in_try_releases_lock gitFile gitFile_wellBehaved gitFile_abortsOnAnyCloseFailure
+    gitFile_abortCloseInTry h0 i hi h hd hrm
 
 /-! ## 4. negation witnesses (concrete schedules, evaluated by the kernel) -/
 
@@ -370,9 +388,9 @@ theorem with_close_fault_releases_now :
       content s [0] = some [0] := by
   decide
 
-/-- F-C07-abort-file-close-error-skips-unlink (found after 37a7ef3): abort() closes the file
-object BEFORE and OUTSIDE the try around the unlink (`gitFileAbortCloseOutsideTry`; see
-`abortCloseInTry` in Gen/Lock.lean for the current flag).  When a write error PERSISTS (disk
+/-- F-C07-abort-file-close-error-skips-unlink (found after 37a7ef3, fixed by eda3035): abort()
+closing the file object BEFORE and OUTSIDE the try around the unlink
+(`gitFileAbortCloseOutsideTry`, the program before that commit).  When a write error PERSISTS (disk
 full), the flush in close() fails, the `finally: self.abort()` closes the file object, whose
 implicit flush fails again, and that exception leaves abort() — and close() — before the unlink:
 the caller is done, not finalised, and still holds the lock. -/
@@ -383,8 +401,15 @@ theorem persistent_fault_abort_skips_unlink_counterexample :
       (s.actors 0).rmFailed = false ∧ (s.actors 0).fcFailed = true ∧ content s [0] = some [0] := by
   decide
 
-/-- … and with `try: self._file.close() finally: <unlink>` in abort() (the proposed repair) the
-same fault sequence ends with the lock released. -/
+/-- … and the program as it is now (eda3035) ends the same fault sequence with the lock released. -/
+theorem persistent_fault_releases_now :
+    let s := run gitFile (State.ofList true [withCaller true false [A] false])
+      [(0, false), (0, false), (0, true), (0, true), (0, false)]
+    (s.actors 0).pc = .done ∧ (s.actors 0).owns = false ∧ s.fs.lock = none ∧
+      (s.actors 0).fcFailed = false ∧ content s [0] = some [0] := by
+  decide
+
+/-- (the same for the explicit patched variant, independent of what the source says) -/
 theorem persistent_fault_releases_when_abort_close_in_try :
     let P : Program := { gitFile with abortCloseInTry := true }
     let s := run P (State.ofList true [withCaller true false [A] false])
